@@ -111,7 +111,7 @@ PROPS = {
     "C19": P("C19", ["LSProofs.Props.C19"], None,
              [fam("serde", n=3, scripted=False)], [fam("serde", n=5, scripted=False)], ["serdeBodies", "arbitraryBodies"],
              search=[fam("serde", n=5, scripted=False)], scripted=False, ext=True),
-    "C20": P("C20", ["LSProofs.Props.C20"], ["out", "text", "len", "kind", "handles"],
+    "C20": P("C20", ["LSProofs.Props.C20", "LSProofs.Props.C20W"], ["out", "text", "len", "kind", "handles"],
              [fam("niche", n=1), RANDOM_Q], [fam("niche", n=1), RANDOM_T, ENUM_T], G20,
              search=[fam("random", n=30000)], configs=True),
 }
